@@ -158,7 +158,7 @@ Section MoveOut.
     (forall wd, has_wd k0 wd = true -> has_wd k wd = true) /\ pend r0 = None.
   Proof.
     unfold settle_pending. rewrite Hfix. destruct (pend r) as [[c p]|] eqn:Ep.
-    - destruct (is_moved_to (k_mask e) && N.eqb (k_cookie e) c).
+    - destruct (is_moved_to (k_mask e) && N.eqb (k_cookie e) c && amem N.eqb (k_wd e) (pfw r)).
       + intros H. inversion H; subst. cbn. auto.
       + intros H. destruct (forget_tree_mono _ _ _ _ _ _ H) as [M1 M2].
         destruct (forget_tree_sub _ _ _ _ _ _ H) as [_ [_ [_ M4]]]. cbn in *. auto.
@@ -180,7 +180,7 @@ Section MoveOut.
   (* the first record after a directory IN_MOVED_FROM that is not its IN_MOVED_TO: the directory's watches are
      forgotten - the key, the descriptor entry and the kernel watch of the directory and of everything below it *)
   Theorem moveout_forgets r k e c p r0 k0 :
-    pend r = Some (c, p) -> is_moved_to (k_mask e) && N.eqb (k_cookie e) c = false ->
+    pend r = Some (c, p) -> is_moved_to (k_mask e) && N.eqb (k_cookie e) c && amem N.eqb (k_wd e) (pfw r) = false ->
     settle_pending C r k e = (r0, k0) ->
     forall q wd, tgt p q = true -> alookup beqb q (wfp r) = Some wd -> alookup N.eqb wd (pfw r) = Some q ->
       alookup beqb q (wfp r0) = None /\ alookup N.eqb wd (pfw r0) = None /\ has_wd k0 wd = false.
@@ -192,7 +192,7 @@ Section MoveOut.
 
   (* ... and then every record the kernel still delivers for one of those descriptors is dropped *)
   Corollary moveout_record_dropped t r k e c p r0 k0 acc e' :
-    pend r = Some (c, p) -> is_moved_to (k_mask e) && N.eqb (k_cookie e) c = false ->
+    pend r = Some (c, p) -> is_moved_to (k_mask e) && N.eqb (k_cookie e) c && amem N.eqb (k_wd e) (pfw r) = false ->
     settle_pending C r k e = (r0, k0) ->
     forall q, tgt p q = true -> alookup beqb q (wfp r) = Some (k_wd e') -> alookup N.eqb (k_wd e') (pfw r) = Some q ->
     read_one_body C t (r0, k0, acc) e' = Done (r0, k0, acc).
@@ -204,7 +204,7 @@ Section MoveOut.
   (* with consistent bookkeeping no descriptor is left that is recorded at or below the former path *)
   Theorem moveout_clean r k e c p r0 k0 :
     consistent r -> pfw_norm r ->
-    pend r = Some (c, p) -> is_moved_to (k_mask e) && N.eqb (k_cookie e) c = false ->
+    pend r = Some (c, p) -> is_moved_to (k_mask e) && N.eqb (k_cookie e) c && amem N.eqb (k_wd e) (pfw r) = false ->
     settle_pending C r k e = (r0, k0) -> clean p r0.
   Proof.
     intros Hc Hn Hp Hm Hs wd q Hq. destruct (settle_pfw_sub _ _ _ _ _ Hs) as [M1 _].
@@ -272,42 +272,52 @@ Section NoPhantom.
       + cbn [r_path] in H. rewrite Hcr' in H. inversion H; subst. split; [right; eauto | intros wd q Hq; exact Hq].
   Qed.
 
-  (* one loop iteration, whatever is pending *)
-  Lemma read_one_no_phantom t r k acc e r' k' acc' :
-    clean p r -> quiet e -> read_one C t (r, k, acc) e = Done (r', k', acc') ->
-    (acc' = acc \/ exists ev, acc' = acc ++ [ev] /\ under p (r_path ev) = false) /\ clean p r'.
+  (* one loop iteration, whatever is pending; [r0] is an earlier state whose descriptor table bounds the current one:
+     a record that is quiet, or whose descriptor was already unknown in [r0] *)
+  Lemma read_one_no_phantom t r0 r k acc e r' k' acc' :
+    clean p r -> pfw_sub r r0 -> quiet_or_unknown r0 e -> read_one C t (r, k, acc) e = Done (r', k', acc') ->
+    (acc' = acc \/ exists ev, acc' = acc ++ [ev] /\ under p (r_path ev) = false) /\ clean p r' /\ pfw_sub r' r0.
   Proof.
-    intros Hc Hq H. unfold read_one in H. destruct (settle_pending C r k e) as [r0 k0] eqn:Es.
+    intros Hc Hs0 Hq H. unfold read_one in H. destruct (settle_pending C r k e) as [r1 k1] eqn:Es.
     destruct (settle_pfw_sub C Hfix _ _ _ _ _ Es) as [M1 _].
-    assert (Hc0 : clean p r0) by (apply (clean_sub r); assumption).
-    destruct (body_no_phantom _ _ _ _ _ _ _ _ Hc0 Hq H) as [H1 H2]. split; [exact H1|].
-    now apply (clean_sub r0).
+    assert (Hc1 : clean p r1) by (apply (clean_sub r); assumption).
+    assert (Hs1 : pfw_sub r1 r0) by (intros wd q Hwq; apply Hs0, M1, Hwq).
+    destruct Hq as [Hq|Hu].
+    - destruct (body_no_phantom _ _ _ _ _ _ _ _ Hc1 Hq H) as [H1 H2]. split; [exact H1|]. split.
+      + now apply (clean_sub r1).
+      + intros wd q Hwq. apply Hs1, H2, Hwq.
+    - assert (Hu1 : alookup N.eqb (k_wd e) (pfw r1) = None).
+      { destruct (alookup N.eqb (k_wd e) (pfw r1)) eqn:E; [|reflexivity]. apply Hs1 in E. congruence. }
+      rewrite (read_body_forgotten C Hfix _ _ _ _ _ Hu1) in H. inversion H; subst. split; [now left | split; assumption].
   Qed.
 
-  (* any number of quiet records, in any number of batches *)
-  Theorem batch_no_phantom t b : forall r k acc r' k' acc',
-    clean p r -> Forall quiet b -> read_batch C t (r, k, acc) b = Done (r', k', acc') ->
-    clean p r' /\ exists new, acc' = acc ++ new /\ Forall (fun ev => under p (r_path ev) = false) new.
+  (* any number of such records, in any number of batches *)
+  Theorem batch_no_phantom t r0 b : forall r k acc r' k' acc',
+    clean p r -> pfw_sub r r0 -> Forall (quiet_or_unknown r0) b -> read_batch C t (r, k, acc) b = Done (r', k', acc') ->
+    clean p r' /\ pfw_sub r' r0 /\
+    exists new, acc' = acc ++ new /\ Forall (fun ev => under p (r_path ev) = false) new.
   Proof.
-    induction b as [|e b IH]; intros r k acc r' k' acc' Hc Hq H; cbn [read_batch] in H.
-    - inversion H; subst. split; [exact Hc|]. exists []. split; [now rewrite app_nil_r | constructor].
+    induction b as [|e b IH]; intros r k acc r' k' acc' Hc Hs Hq H; cbn [read_batch] in H.
+    - inversion H; subst. split; [exact Hc|]. split; [exact Hs|]. exists []. split; [now rewrite app_nil_r | constructor].
     - inversion Hq as [|? ? Hqe Hqb]; subst.
       destruct (read_one C t (r, k, acc) e) as [[[r1 k1] acc1]|s1] eqn:E1; [|discriminate].
-      destruct (read_one_no_phantom _ _ _ _ _ _ _ _ Hc Hqe E1) as [Ha Hc1].
-      destruct (IH _ _ _ _ _ _ Hc1 Hqb H) as [Hc' [new [Hn Hf]]]. split; [exact Hc'|].
+      destruct (read_one_no_phantom _ _ _ _ _ _ _ _ _ Hc Hs Hqe E1) as [Ha [Hc1 Hs1]].
+      destruct (IH _ _ _ _ _ _ Hc1 Hs1 Hqb H) as [Hc' [Hs' [new [Hn Hf]]]]. split; [exact Hc'|]. split; [exact Hs'|].
       destruct Ha as [->|[ev [-> Hev]]].
       + exists new. auto.
       + exists (ev :: new). split; [now rewrite Hn, <- app_assoc | constructor; assumption].
   Qed.
 End NoPhantom.
 
-(* The statement "from the first record processed after its IN_MOVED_FROM on": in a state with consistent, normalised
-   tables in which the IN_MOVED_FROM of directory [p] is pending, a batch of quiet records whose first record is not
-   the matching IN_MOVED_TO yields no raw event with a path below [p], and leaves no descriptor recorded at or below [p]. *)
+(* "From the first record processed after its IN_MOVED_FROM on": in a state with consistent, normalised tables in which the
+   IN_MOVED_FROM of directory [p] is pending and the next record is not [p]'s IN_MOVED_TO on a descriptor the reader knows
+   (i.e. the directory has left the tree - this includes its IN_MOVED_TO delivered through a forgotten descriptor), a batch
+   of records that are quiet or arrive on unknown descriptors yields no raw event with a path below [p], and leaves no
+   descriptor recorded at or below [p]. *)
 Theorem no_phantom_after_moveout C t r k acc c p e b r' k' acc' :
   c_fix_moveout C = true -> consistent r -> pfw_norm r -> pend r = Some (c, p) ->
-  is_moved_to (k_mask e) && N.eqb (k_cookie e) c = false ->
-  Forall (quiet) (e :: b) ->
+  is_moved_to (k_mask e) && N.eqb (k_cookie e) c && amem N.eqb (k_wd e) (pfw r) = false ->
+  Forall (quiet_or_unknown r) (e :: b) ->
   read_batch C t (r, k, acc) (e :: b) = Done (r', k', acc') ->
   clean p r' /\ exists new, acc' = acc ++ new /\ Forall (fun ev => under p (r_path ev) = false) new.
 Proof.
@@ -316,9 +326,18 @@ Proof.
   inversion Hq as [|? ? Hqe Hqb]; subst.
   unfold read_one in E1. destruct (settle_pending C r k e) as [r0 k0] eqn:Es.
   assert (Hc0 : clean p r0) by (eapply moveout_clean; eauto).
-  destruct (body_no_phantom C Hfix p _ _ _ _ _ _ _ _ Hc0 Hqe E1) as [Ha Hs1].
+  destruct (settle_pfw_sub C Hfix _ _ _ _ _ Es) as [M1 _].
+  assert (Hstep : (acc1 = acc \/ exists ev, acc1 = acc ++ [ev] /\ under p (r_path ev) = false) /\ pfw_sub r1 r0).
+  { destruct Hqe as [Hqe|Hu].
+    - exact (body_no_phantom C Hfix p _ _ _ _ _ _ _ _ Hc0 Hqe E1).
+    - assert (Hu0 : alookup N.eqb (k_wd e) (pfw r0) = None).
+      { destruct (alookup N.eqb (k_wd e) (pfw r0)) eqn:E; [|reflexivity]. apply M1 in E. congruence. }
+      rewrite (read_body_forgotten C Hfix _ _ _ _ _ Hu0) in E1. inversion E1; subst.
+      split; [now left | intros ? ? ?; assumption]. }
+  destruct Hstep as [Ha Hs1].
   assert (Hc1 : clean p r1) by (now apply (clean_sub p r0)).
-  destruct (batch_no_phantom C Hfix p t b _ _ _ _ _ _ Hc1 Hqb H) as [Hc' [new [Hnew Hf]]]. split; [exact Hc'|].
+  assert (Hs1' : pfw_sub r1 r) by (intros wd q Hwq; apply M1, Hs1, Hwq).
+  destruct (batch_no_phantom C Hfix p t r b _ _ _ _ _ _ Hc1 Hs1' Hqb H) as [Hc' [_ [new [Hnew Hf]]]]. split; [exact Hc'|].
   destruct Ha as [->|[ev [-> Hev]]].
   - exists new. auto.
   - exists (ev :: new). split; [now rewrite Hnew, <- app_assoc | constructor; assumption].
@@ -344,11 +363,13 @@ Proof.
   repeat split; vm_compute; reflexivity.
 Qed.
 
-(* RESIDUAL HOLE of the repair: two directories leave the tree in one burst and the second is moved INTO the first
-   (mv R/a O/x; mv R/b O/x/b, read in one batch).  The kernel delivers the second IN_MOVED_TO through the first
-   directory's still existing watch; the reader has just forgotten that descriptor, so the record is skipped - but it
-   has already cancelled the pending candidate: R/b is never forgotten, and mkdir O/x/b/z is reported as
-   DirCreated(R/b/z). *)
+(* Two directories leave the tree in one burst and the second is moved INTO the first (mv R/a O/x; mv R/b O/x/b, read in
+   one batch).  The kernel delivers the second IN_MOVED_TO through the first directory's still existing watch, a
+   descriptor the reader has just forgotten.  With the FIRST version of the repair (candidate cleared on any IN_MOVED_TO
+   with the same cookie; not expressible with the flags of [cfg]) that record cancelled the pending candidate although it
+   was then skipped: R/b kept its watch and its stale path, and mkdir O/x/b/z was delivered as DirCreated(R/b/z) (found by
+   the thorough tier of this check on the real patched observer; corpus/C03/f10-nested-moveout.json).  The current code
+   keeps the candidate only when the IN_MOVED_TO arrives on a known descriptor: *)
 Definition gap_Ra : bytes := [47; 82; 47; 97]%N.                      (* /R/a *)
 Definition gap_Rb : bytes := [47; 82; 47; 98]%N.                      (* /R/b *)
 Definition gap_Ox : bytes := [47; 79; 47; 120]%N.                     (* /O/x *)
@@ -361,27 +382,25 @@ Definition gap_history : list action :=
    AOp (Rename gap_Ra gap_Ox); AOp (Rename gap_Rb gap_Oxb); ARead 100; ATick 10; AEmit; AEmit; AEmit; AEmit;
    AOp (Mkdir gap_Oxbz); ARead 100; AEmit; AEmit; AEmit].
 
-Lemma moveout_gap :
+(* sound; no event below /R/a or /R/b; both sub-trees forgotten: only the root is left in the tables and in the kernel *)
+Lemma nested_moveout_repaired :
   exists s0 s obs, pinit fx_cfg ph_world = Some s0 /\ prun fx_cfg s0 gap_history [] = Done (s, obs) /\
-    In (mk DirCreated gap_Rbz []) (p_out s) /\ fexists gap_Rbz (w_fs (p_world s)) = false /\
-    sound_along fx_cfg s0 [] gap_history = false.
+    sound_along fx_cfg s0 [] gap_history = true /\
+    forallb (fun ev => negb (under gap_Ra (ev_src ev)) && negb (under gap_Rb (ev_src ev))) (p_out s) = true /\
+    wfp (p_r s) = [(ph_R, 1%N)] /\ pfw (p_r s) = [(1%N, ph_R)] /\ pend (p_r s) = None /\
+    has_wd (p_k s) 2 = false /\ has_wd (p_k s) 3 = false.
 Proof.
   eexists; eexists; eexists. split; [vm_compute; reflexivity|]. split; [vm_compute; reflexivity|].
-  split; [|split; vm_compute; reflexivity]. vm_compute. do 8 right. left. reflexivity.
+  repeat split; vm_compute; reflexivity.
 Qed.
 
-(* history-level soundness for the CURRENT code (all four repairs on) *)
+(* history-level soundness for the CURRENT code (all four repairs on): stated; still false because of F10e
+   (a directory renamed before its first read whose name is re-used before that read) *)
 Definition sound_full_current : Prop :=
   forall P w s0 h, pc_filter P = None -> c_mask (pc_reader P) = WATCHDOG_ALL ->
     c_fix_ignored (pc_reader P) = true -> c_fix_movein (pc_reader P) = true -> c_fix_simulate (pc_reader P) = true ->
     c_fix_moveout (pc_reader P) = true ->
     pinit P w = Some s0 -> sound_along P s0 [] h = true.
-
-Lemma sound_full_current_false : ~ sound_full_current.
-Proof.
-  intros H. destruct moveout_gap as [s0 [s [obs [H1 [_ [_ [_ H2]]]]]]].
-  rewrite (H fx_cfg ph_world s0 gap_history) in H2; try reflexivity; [discriminate | exact H1].
-Qed.
 
 (* ---- a concrete state for the non-vacuity example: right after the IN_MOVED_FROM of /R/d has been read *)
 Lemma al_pair {V} (m : list (N * V)) a v : alookup N.eqb a m = Some v -> In (a, v) m.
@@ -419,7 +438,7 @@ Definition mo_state : option pstate :=
 Lemma moveout_nonvacuous :
   exists s e b, mo_state = Some s /\ k_queue (p_k s) = e :: b /\
     pend (p_r s) = Some (1%N, ph_Rd) /\ consistent (p_r s) /\ pfw_norm (p_r s) /\
-    is_moved_to (k_mask e) && N.eqb (k_cookie e) 1 = false /\ Forall quiet (e :: b) /\ length b = 2%nat /\
+    is_moved_to (k_mask e) && N.eqb (k_cookie e) 1 && amem N.eqb (k_wd e) (pfw (p_r s)) = false /\ Forall quiet (e :: b) /\ length b = 2%nat /\
     alookup beqb ph_Rd (wfp (p_r s)) = Some 2%N /\ alookup N.eqb 2%N (pfw (p_r s)) = Some ph_Rd /\ has_wd (p_k s) 2 = true /\
     exists r' k', read_batch (pc_reader fx_cfg) (w_fs (p_world s)) (p_r s, p_k s, []) (e :: b) = Done (r', k', []) /\
                   wfp r' = [(ph_R, 1%N)] /\ has_wd k' 2 = false.
@@ -430,4 +449,33 @@ Proof.
   split; [repeat constructor; try (right; vm_compute; reflexivity); vm_compute; reflexivity|].
   split; [reflexivity|]. split; [vm_compute; reflexivity|]. split; [vm_compute; reflexivity|].
   split; [vm_compute; reflexivity|]. eexists; eexists. split; [vm_compute; reflexivity|]. split; vm_compute; reflexivity.
+Qed.
+
+(* ---- F10e: the known finding that still refutes history-level soundness of the current code *)
+Definition e_Rc : bytes := [47; 82; 47; 99]%N.                        (* /R/c *)
+Definition e_Rb : bytes := [47; 82; 47; 98]%N.                        (* /R/b *)
+Definition e_Rcc : bytes := [47; 82; 47; 99; 47; 99]%N.               (* /R/c/c *)
+Definition e_Rcb : bytes := [47; 82; 47; 99; 47; 98]%N.               (* /R/c/b *)
+Definition e_Rccb : bytes := [47; 82; 47; 99; 47; 99; 47; 98]%N.      (* /R/c/c/b - where the event is wrongly placed *)
+
+(* mkdir R/c; mv R/c R/b; mkdir R/c back to back; drain; mv R/b R/c/c; mkdir R/c/b; drain *)
+Definition f10e_history : list action :=
+  [AOp (Mkdir e_Rc); AOp (Rename e_Rc e_Rb); AOp (Mkdir e_Rc); ARead 100; ATick 10;
+   AEmit; AEmit; AEmit; AEmit; AEmit; AEmit;
+   AOp (Rename e_Rb e_Rcc); AOp (Mkdir e_Rcb); ARead 100; ATick 10; AEmit; AEmit; AEmit; AEmit; AEmit].
+
+Lemma sound_current_refuted_f10e :
+  exists s0 s obs, pinit fx_cfg ph_world = Some s0 /\ prun fx_cfg s0 f10e_history [] = Done (s, obs) /\
+    In (mk DirCreated e_Rccb []) (p_out s) /\ fexists e_Rccb (w_fs (p_world s)) = false /\
+    fexists e_Rcb (w_fs (p_world s)) = true /\
+    sound_along fx_cfg s0 [] f10e_history = false.
+Proof.
+  eexists; eexists; eexists. split; [vm_compute; reflexivity|]. split; [vm_compute; reflexivity|].
+  split; [|repeat split; vm_compute; reflexivity]. vm_compute. do 10 right. left. reflexivity.
+Qed.
+
+Lemma sound_full_current_false : ~ sound_full_current.
+Proof.
+  intros H. destruct sound_current_refuted_f10e as [s0 [s [obs [H1 [_ [_ [_ [_ H2]]]]]]]].
+  rewrite (H fx_cfg ph_world s0 f10e_history) in H2; try reflexivity; [discriminate | exact H1].
 Qed.
